@@ -72,7 +72,9 @@ THEOREMS = [
 ]
 RULE = ("random archives with dyadic objectives / measures: GridArchive 2-D (dims 1..8 x 1..8) and 1-D (1..8 cells), "
         "CVTArchive 1-D (2..30 custom centroids, shuffled) and 2-D (1..30 custom centroids), SlidingBoundariesArchive "
-        "2-D after real remaps, ProximityArchive 2-D, GridArchive 1..4-D for parallel_axes_plot; content patterns "
+        "2-D after real remaps, ProximityArchive 2-D, GridArchive 1..4-D and ProximityArchive 1..4-D (one elite, two "
+        "elites sharing a coordinate, several: bounds = min / max of the stored measures, so zero-range axes occur; "
+        "defect D52) for parallel_axes_plot, with and without measure_order; content patterns "
         "'one' (exactly one elite), 'sparse' (empty cells), 'full', 'equal' (all objectives equal: degenerate colour "
         "range), 'replaced' (grid / CVT strata: CMA-MAE archive with learning_rate < 1 and a finite threshold_min, "
         "filled one add call at a time by a history in which elites - the best one included - are replaced by LOWER "
@@ -85,7 +87,10 @@ RULE = ("random archives with dyadic objectives / measures: GridArchive 2-D (dim
         "exactly; every plot variant = transpose on/off x "
         "explicit / one-sided / default vmin,vmax x cbar on/off x ax given / current Axes (x sort_archive, "
         "measure_order, boundary_lw, explicit bounds where they exist), each run once with the archive and once with "
-        "df=archive.data(return_type='pandas'); a case is non-trivial when it stores at least one elite and either "
+        "df=archive.data(return_type='pandas'), and for half of the variants a third time with a frame a caller may "
+        "legitimately pass (rows sorted / reversed / shuffled / sliced without reset_index / relabelled / custom "
+        "metric in the objective column): the picture must be that of the frame's rows read by position; a case is "
+        "non-trivial when it stores at least one elite and either "
         "two distinct objectives or exactly one elite (so that a wrong cell-to-colour assignment is visible), "
         "counted once per distinct list of adds")
 PARTIAL = [
@@ -96,7 +101,11 @@ PARTIAL = [
     "rendering (rasterisation of the artists by matplotlib/Agg) is trusted: the check reads artist data, not pixels",
 ]
 ASSUMPTIONS = [
-    "the frame passed as df is archive.data(return_type='pandas') (distinct, in-range indices)",
+    "the frame passed as df is archive.data(return_type='pandas') or a reordering / relabelling / row subset of "
+    "it, possibly with a replaced objective column (distinct, in-range indices)",
+    "parallel_axes_plot: on an axis whose archive bounds coincide (zero range) the limits need only contain the "
+    "stored value and be non-degenerate (the code widens by 0.01, a non-dyadic constant: line data and limits are "
+    "then compared within 2^-30 * scale); everywhere else the comparison is exact",
     "explicit limits satisfy vmin < vmax; matplotlib widens a degenerate colour range (vmin == vmax exactly), so "
     "'limits default to the range of stored objectives' is checked as: limits contain the range when it is "
     "degenerate and EQUAL it (exact rationals, no tolerance) whenever min < max, however close the two are",
@@ -306,6 +315,10 @@ def view_data(archive, view):
     return {"index": np.asarray(adf.get_field("index")).reshape(n),
             "objective": np.asarray(adf.get_field("objective")).reshape(n),
             "measures": np.asarray(adf.get_field("measures")).reshape(n, archive.measure_dim)}, frame
+
+
+def view_tag(view):
+    return f" [rows of a {view} frame passed as df=]" if view else ""
 
 
 def plots_for(case, view):
@@ -697,6 +710,7 @@ def run_grid(case, view=None):
         tr = bool(v["tr"])
         vmin, vmax = effective_limits(v, objs)
         where = f"{case['kind']} plot#{k} tr={int(tr)} vmin={vmin} vmax={vmax}"
+        where += view_tag(view)
         obs, fail = call_both(grid_archive_heatmap, a, v, {"transpose_measures": tr},
                               lambda fg, n: read_quadmesh(fg.ax), where, vmin, vmax, frame=frame)
         if fail:
@@ -794,6 +808,7 @@ def run_cvt1(case, view=None):
     for k, v in plots_for(case, view):
         vmin, vmax = effective_limits(v, objs)
         where = f"cvt1 plot#{k} vmin={vmin} vmax={vmax}"
+        where += view_tag(view)
         kw = {"transpose_measures": bool(v["tr"])}
         if v.get("plot_centroids"):
             kw["plot_centroids"] = True
@@ -903,6 +918,7 @@ def run_cvt2(case, view=None):
         tr = bool(v["tr"])
         vmin, vmax = effective_limits(v, objs)
         where = f"cvt2 plot#{k} tr={int(tr)} vmin={vmin} vmax={vmax} clip={int(bool(v.get('clip')))}"
+        where += view_tag(view)
         kw = {"transpose_measures": tr}
         if v.get("clip"):
             kw["clip"] = True
@@ -1026,6 +1042,7 @@ def run_sliding(case, view=None):
         tr = bool(v["tr"])
         vmin, vmax = effective_limits(v, objs)
         where = f"sliding plot#{k} tr={int(tr)} lw={v['lw']} vmin={vmin} vmax={vmax}"
+        where += view_tag(view)
         obs, fail = call_both(sliding_boundaries_archive_heatmap, a, v,
                               {"transpose_measures": tr, "boundary_lw": v["lw"]},
                               lambda fg, n: read_scatter(fg.ax), where, vmin, vmax, frame=frame)
@@ -1124,6 +1141,7 @@ def run_prox(case, view=None):
         tr = bool(v["tr"])
         vmin, vmax = effective_limits(v, objs)
         where = f"prox plot#{k} tr={int(tr)} bounds={int(v['bounds'])} vmin={vmin} vmax={vmax}"
+        where += view_tag(view)
         kw = {"transpose_measures": tr}
         if v["bounds"]:
             blo = np.array([lo - 1.0 for lo in case["lows"]])
@@ -1289,6 +1307,7 @@ def run_parallel(case, view=None):
         vmin, vmax = effective_limits(v, objs)
         where = (f"parallel[{case.get('arch', 'grid')}] plot#{k} sort={int(sort)} order={order} vmin={vmin} "
                  f"vmax={vmax}")
+        where += view_tag(view)
         kw = {"sort_archive": sort}
         if order is not None:
             kw["measure_order"] = [(c, f"m{c}") for c in order] if v.get("named") else list(order)
